@@ -78,9 +78,22 @@ where
             loop {
                 let request = recv_request.recv().await?;
 
-                frame
+                let written = frame
                     .write_async::<MessageRequest<S>, _>(Pin::new(&mut stdin), &request)
-                    .await?;
+                    .await;
+                if let Err(Error::WriteFailed(_)) = written {
+                    // The child is gone, it can die while still reading a
+                    // request that doesn't fit into its memory limit.
+                    // That's a crash like any other: report it and start
+                    // a new child for the next request.
+                    send_response
+                        .send(Err(Error::Crashed))
+                        .await
+                        .map_err(|_| Error::Send("response to caller"))?;
+                    let _ = process.kill();
+                    break;
+                }
+                written?;
 
                 let interrupt = async {
                     ctrlc.next().await;
